@@ -26,6 +26,28 @@ type FakeRelay struct {
 	Fault   func(op string, sid string, n int) RelayFault // consulted for every send / recv
 	counts  map[string]int
 	Latency time.Duration
+	down    bool // outage: every RPC and every operation on an open stream, CloseSend included, fails
+}
+
+var errRelayDown = status.Error(codes.Unavailable, "relay unreachable")
+
+// SetDown starts / ends an outage of the relay.
+func (r *FakeRelay) SetDown(d bool) {
+	r.mu.Lock()
+	r.down = d
+	for _, b := range r.boxes {
+		select {
+		case b.notify <- struct{}{}:
+		default:
+		}
+	}
+	r.mu.Unlock()
+}
+
+func (r *FakeRelay) isDown() bool {
+	r.mu.Lock()
+	defer r.mu.Unlock()
+	return r.down
 }
 
 type RelayFault struct {
@@ -75,6 +97,9 @@ func sidKey(b []byte) string { return hex.EncodeToString(b) }
 func (r *FakeRelay) NewCipherBox(ctx context.Context, in *hashmailrpc.CipherBoxAuth, _ ...grpc.CallOption) (*hashmailrpc.CipherInitResp, error) {
 	r.mu.Lock()
 	defer r.mu.Unlock()
+	if r.down {
+		return nil, errRelayDown
+	}
 	k := sidKey(in.Desc.StreamId)
 	if _, ok := r.boxes[k]; ok {
 		return nil, status.Error(codes.AlreadyExists, "stream already active")
@@ -122,9 +147,19 @@ type fakeSendStream struct {
 	r *FakeRelay
 }
 
+func (s *fakeSendStream) CloseSend() error {
+	if s.r.isDown() {
+		return errRelayDown
+	}
+	return nil
+}
+
 func (s *fakeSendStream) Send(box *hashmailrpc.CipherBox) error {
 	if err := s.ctx.Err(); err != nil {
 		return err
+	}
+	if s.r.isDown() {
+		return errRelayDown
 	}
 	r := s.r
 	r.mu.Lock()
@@ -165,6 +200,9 @@ func (r *FakeRelay) SendStream(ctx context.Context, _ ...grpc.CallOption) (hashm
 	if err := ctx.Err(); err != nil {
 		return nil, err
 	}
+	if r.isDown() {
+		return nil, errRelayDown
+	}
 	return &fakeSendStream{fakeStream{ctx}, r}, nil
 }
 
@@ -184,7 +222,13 @@ func (s *fakeRecvStream) release() {
 	s.r.mu.Unlock()
 }
 
-func (s *fakeRecvStream) CloseSend() error { s.release(); return nil }
+func (s *fakeRecvStream) CloseSend() error {
+	s.release()
+	if s.r.isDown() {
+		return errRelayDown
+	}
+	return nil
+}
 
 func (s *fakeRecvStream) Recv() (*hashmailrpc.CipherBox, error) {
 	r := s.r
@@ -197,6 +241,14 @@ func (s *fakeRecvStream) Recv() (*hashmailrpc.CipherBox, error) {
 		if s.done {
 			r.mu.Unlock()
 			return nil, io.EOF
+		}
+		if r.down {
+			if b, ok := r.boxes[s.k]; ok {
+				b.occupied = false
+			}
+			s.done = true
+			r.mu.Unlock()
+			return nil, errRelayDown
 		}
 		b, ok := r.boxes[s.k]
 		if !ok {
@@ -242,6 +294,9 @@ func (s *fakeRecvStream) Recv() (*hashmailrpc.CipherBox, error) {
 func (r *FakeRelay) RecvStream(ctx context.Context, in *hashmailrpc.CipherBoxDesc, _ ...grpc.CallOption) (hashmailrpc.HashMail_RecvStreamClient, error) {
 	r.mu.Lock()
 	defer r.mu.Unlock()
+	if r.down {
+		return nil, errRelayDown
+	}
 	k := sidKey(in.StreamId)
 	s := &fakeRecvStream{fakeStream: fakeStream{ctx}, r: r, k: k}
 	b, ok := r.boxes[k]
